@@ -148,7 +148,12 @@ func (w *World) step(t *Thread) {
 	switch i := ins.(type) {
 	case *ssa.Alloc:
 		et := i.Type().(*types.Pointer).Elem()
-		f.regs[i] = Ptr{o: w.newObj(zero(et), et)}
+		o := w.newObj(zero(et), et)
+		if i.Heap && w.raceOn && isVarComment(i.Comment) && !isHarnessFn(f.fn) {
+			fnn := f.fn.Name()
+			o.label = fnn + "." + i.Comment // a local variable shared with a closure / goroutine
+		}
+		f.regs[i] = Ptr{o: o}
 	case *ssa.Store:
 		w.store(t, w.val(f, i.Addr).(Ptr), w.val(f, i.Val))
 	case *ssa.UnOp:
@@ -859,13 +864,28 @@ func (w *World) convert(x Val, from, to types.Type) Val {
 		return n
 	case Sym:
 		if n.s == 'I' && tb != nil && tb.Info()&types.IsFloat != 0 {
-			r := w.roundReal("(to_real " + n.t + ")")
-			if w.floatRounding {
-				// integers of magnitude up to 2^53 convert exactly
-				d := fmt.Sprintf("fpd_%x", sha1.Sum([]byte("(to_real "+n.t+")")))[:18]
-				w.s.send(fmt.Sprintf("(assert (=> (and (<= %s 9007199254740992) (>= %s (- 9007199254740992))) (= %s 0.0)))", n.t, n.t, d))
+			if !w.floatRounding {
+				return symR("(to_real " + n.t + ")")
 			}
-			return r
+			// exact IEEE conversion of a 64-bit integer: values up to 2^53 in magnitude are exact; above, the
+			// result is the nearest multiple of 2^s (s = 1..10 by magnitude; either neighbour on a tie)
+			k := fmt.Sprintf("%x", sha1.Sum([]byte("conv:"+n.t)))[:14]
+			f, m := "cvf_"+k, "cvm_"+k
+			if !w.declared[f] {
+				w.declared[f] = true
+				w.s.send("(declare-const " + f + " Real)")
+				w.s.send("(declare-const " + m + " Int)")
+				ax := "(ite (>= " + n.t + " 0) " + n.t + " (- " + n.t + "))"
+				var cases []string
+				cases = append(cases, "(and (<= "+ax+" 9007199254740992) (= "+f+" (to_real "+n.t+")))")
+				for s := 1; s <= 11; s++ {
+					lo, hi, p := pow2(52+s), pow2(53+s), pow2(s)
+					cases = append(cases, fmt.Sprintf("(and (> %s %s) (<= %s %s) (= %s (to_real (* %s %s))) (<= (* 2 (ite (>= (- %s (* %s %s)) 0) (- %s (* %s %s)) (- (* %s %s) %s))) %s))",
+						ax, lo, ax, hi, f, m, p, n.t, m, p, n.t, m, p, m, p, n.t, p))
+				}
+				w.s.send("(assert (or " + strings.Join(cases, " ") + "))")
+			}
+			return symR(f)
 		}
 		if n.s == 'R' && tb != nil && tb.Info()&types.IsInteger != 0 {
 			// out of int64 range (incl. rounding up to 2^63): amd64 yields MinInt64
@@ -1409,4 +1429,25 @@ func (w *World) fspecOp(op token.Token, s FSpec, o Val, specLeft bool) Val {
 		return true
 	}
 	panic(engErr("fspec op " + op.String()))
+}
+
+func isVarComment(c string) bool {
+	switch c {
+	case "", "complit", "new", "slicelit", "makeslice", "varargs", "arraylit", "maplit", "append", "string", "range":
+		return false
+	}
+	return !strings.ContainsAny(c, " .[]()")
+}
+
+// isHarnessFn: harness code (vp* functions, their closures, methods of vp* stub types) or non-library code
+func isHarnessFn(fn *ssa.Function) bool {
+	for p := fn; p != nil; p = p.Parent() {
+		if strings.HasPrefix(p.Name(), "vp") {
+			return true
+		}
+		if r := p.Signature.Recv(); r != nil && strings.Contains(r.Type().String(), ".vp") {
+			return true
+		}
+	}
+	return fn.Pkg == nil || fn.Pkg.Pkg.Path() != leaderPkg
 }
